@@ -84,6 +84,16 @@ def progress_string(c, f, r, t):
     return s
 
 
+def wake(obs):
+    """One wake-up of the observer's update thread, performed synchronously by running the thread's own loop with
+    the shutdown event set (exactly one iteration: render if needed, emit), whatever locking it does itself."""
+    obs._done_event.set()
+    try:
+        obs._run_update_thread()
+    finally:
+        obs._done_event.clear()
+
+
 def replay_one(arg):
     """Replay one sequence for one scope family into the three observers. Returns a list of failures."""
     seq, famname, scopes = arg
@@ -120,12 +130,9 @@ def replay_one(arg):
                         sc = scopes[e["sc"] - 1] if e["sc"] else None
                         key = (e["sec"], sc)
                         if k == "enter":
-                            obs.__enter__()
+                            pass  # no thread here: wake-ups are performed synchronously below (the threaded replay uses the real one)
                         elif k == "exit":
-                            alive = obs._thread is not None and obs._thread.is_alive()
-                            if not alive:
-                                fails.append({"obs": obsname, "what": "update_thread_died", "detail": thread_exc[:1]})
-                            obs.__exit__(None, None, None)
+                            wake(obs)  # the final wake-up of the update thread
                         elif k == "total":
                             obs.increment_total(section=e["sec"], scope=sc, amount=e["amt"])
                             final.setdefault(key, [0, 0, 0, 0])[3] += e["amt"]
@@ -148,23 +155,13 @@ def replay_one(arg):
                                 busy += 1.0
                             ft.now += 1.0
                         elif k == "render":
-                            # what the update thread does when it wakes up
-                            with obs._lock:
-                                v = obs._do_render()
-                            if v is not None:
-                                obs._output(v)
+                            wake(obs)
                             if obsname == "console":
                                 outputs.append(stdout.getvalue())
                                 stdout.seek(0)
                                 stdout.truncate()
-                except Exception as ex:  # a notification or a rendering raised in the caller's thread
+                except Exception as ex:  # a notification or a rendering raised
                     err = f"{type(ex).__name__}: {ex}"
-                    try:
-                        obs._done_event.set()
-                        if obs._thread:
-                            obs._thread.join()
-                    except Exception:
-                        pass
             if obsname == "console":
                 outputs.append(stdout.getvalue())
             if err:
@@ -254,7 +251,8 @@ def replay_threaded(arg):
 
     rng = random.Random(seed)
     strat = E.make_strategy(stratspec, rng)
-    sched = detsched.Scheduler(strat, preempt_files=("uberjob/progress/_simple_progress_observer.py", "uberjob/progress/_html_progress_observer.py"), opcode=False, step_budget=400000)
+    sched = detsched.Scheduler(strat, preempt_files=("uberjob/progress/_simple_progress_observer.py", "uberjob/progress/_html_progress_observer.py"), opcode=False, step_budget=400000,
+                                timers="any" if seed % 2 else "idle")  # "any": a sleeping thread may wake while others are still busy (time passes during rendering)
     outputs = []
     final = {}
     thread_exc = []
